@@ -11,7 +11,10 @@ import Mdns.Model.Txt
   * events per channel AND per subject (the instance a found / resolved / removed event is
     about) in the order they were sent; events of different instances on one channel are
     compared as a multiset, because `resolve_updated_instances` / `notify_service_removal` /
-    the eviction loop walk hash maps and hash sets.  Search-level events (`started`,
+    the eviction loop walk hash maps and hash sets; likewise `AddressesFound` / `AddressesRemoved`
+    for differently spelled owner names of one host.  Question names are compared in lower
+    case (which spelling of a host `refresh_due_hosts` asks for depends on hash order when the
+    SRV targets differ only in case).  Search-level events (`started`,
     `stopped`, the hostname events, `metrics`) keep their position relative to the instance
     events of their channel.
 -/
@@ -44,7 +47,7 @@ def kaOfRec (r : Rec.Record) : String :=
   s!"{hexOfBytes r.name}:{r.ty}:{r.cls}:{boolTok r.flush}:{r.ttl}:{recRdataKey r.rdata}"
 
 def qsStr (qs : List (BList × Nat)) : String :=
-  ",".intercalate (sortStrings (qs.map fun (n, t) => hexOfBytes n ++ ":" ++ toString t))
+  ",".intercalate (sortStrings (qs.map fun (n, t) => hexOfBytes (lower n) ++ ":" ++ toString t))
 
 def kaStr (kas : List String) : String := ",".intercalate (sortStrings kas)
 
@@ -87,8 +90,8 @@ def evStr : Client.Ev → String × String
   | .removed ty inst => (hexOfBytes inst, s!"removed {hexOfBytes ty} {hexOfBytes inst}")
   | .stopped ty => ("-", s!"stopped {hexOfBytes ty}")
   | .hstarted => ("-", "hstarted")
-  | .hfound h a => ("-", s!"hfound {hexOfBytes h} {hostAddrToks a}")
-  | .hremoved h a => ("-", s!"hremoved {hexOfBytes h} {hostAddrToks a}")
+  | .hfound h a => (hexOfBytes h, s!"hfound {hexOfBytes h} {hostAddrToks a}")
+  | .hremoved h a => (hexOfBytes h, s!"hremoved {hexOfBytes h} {hostAddrToks a}")
   | .htimeout h => ("-", s!"htimeout {hexOfBytes h}")
   | .hstopped h => ("-", s!"hstopped {hexOfBytes h}")
   | .metrics m => ("-", metricsStr m)
@@ -103,6 +106,8 @@ def implEvStr (toks : List String) : String × String :=
   | "removed" :: _ :: inst :: _ => (inst, joinToks toks)
   | "resolved" :: _ :: "none" :: full :: _ => (full, joinToks toks)
   | "resolved" :: _ :: "some" :: _ :: full :: _ => (full, joinToks toks)
+  | "hfound" :: h :: _ => (h, joinToks toks)
+  | "hremoved" :: h :: _ => (h, joinToks toks)
   | "metrics" :: _ :: kvs =>
     let get := fun (k : String) =>
       ((kvs.find? fun kv => kv.startsWith (k ++ "=")).map fun kv => (kv.drop (k.length + 1)).toString).getD "0"
